@@ -40,6 +40,7 @@ ASSUME = [
     "slides present in a corpus deck before the case starts are opaque to the model (only their layout reference is modelled); the oracle checks them byte-for-byte",
     "shape ids and names inside group shapes are not modelled (no case adds a group to a new slide)",
     "python ints only; negative list indices are not generated",
+    "the property speaks about geometry until overridden: what a setter does to the partner dimension (setting left on a placeholder without a:off creates a:off with y = 0, so top stops being inherited; a rejected value leaves the freshly created zeros behind) is modelled, proved (C13_set_own, C13_set_rejected) and tied by the correspondence, but not judged by the oracle",
 ]
 
 _META = None
@@ -859,7 +860,7 @@ def gen_cases(tier, rng):
         cases.append(("directed", {"deck": "default", "ops": [
             "A %d" % lay, "E s 0 0 R " + nm(ren), "P 0 %d 0" % lay, "P 0 %d 1" % lay, "E s 0 1 D", "P 0 %d 2" % lay,
             "E s 0 0 R " + nm("Title 4"), "E s 0 2 R " + nm("Title 5"), "P 0 %d 0" % lay, "X 0 1 2 3 4", "P 0 1 0", "P 0 %d 1" % lay]}))
-    n_gen = 420 if tier == "quick" else 5000
+    n_gen = 600 if tier == "quick" else 5000
     for i in range(n_gen):
         pop = {}
         li = rng.randrange(11)
@@ -1012,7 +1013,7 @@ def run(ck, tier, rng):
     ck.broken_build(oracle_found_concrete=any_concrete)
     return ck.finish(
         rule="every layout of each of the %d decks under /repo (one history per deck: add a slide from every layout, edits, repeated additions, notes slides) + %d directed layouts (each placeholder type x idx/orient/sz/xfrm variants, duplicated) + generated populations of master / one layout / notes master of the default template with histories of 4-14 operations (one in six with out-of-range indices and values) + histories on the decks that carry a notes master; non-trivial = the history created a slide with at least two placeholders or a notes slide with at least one"
-             % (len(corpus_files()), 73),
+             % (len(corpus_files()), ck.dist.get("directed", 0)),
         trusted_base=TB, assumptions=ASSUME,
         extra={"correspondence_diffs": diffs, "exhaustive": False, "skipped_outside_model": skipped,
                "partial_maps_today": partial, "histories": len(kept)},
